@@ -1,7 +1,7 @@
 """C53 allow and block lists are enforced — polarity tables of Enforce::enforce (K7), enforce-dominates-Ok guards (K1), close-queue pairing (K2), who-may-mutate (K4)."""
 import re
 
-from .. import lib, mir
+from .. import lib, lib_misc as lm, mir
 from ..mir import render, strip_generics
 
 EXPLANATION = ("The two impls of the private trait Enforce are the only ones; AllowedPeers::enforce returns Ok only on the `contains == true` "
@@ -21,7 +21,6 @@ ASSUMPTIONS = ["the Swarm executes ToSwarm::CloseConnection{All} by closing ever
                "interleavings of list changes and in-flight dials are not executed (the hooks read the list at call time)"]
 AB = "libp2p_allow_block_list"
 NB = r"<Behaviour as libp2p_swarm::NetworkBehaviour>::"
-TRY = r"^discr\((<std::result::Result as std::ops::Try>::branch\()?libp2p_allow_block_list::Enforce::enforce\("
 
 SELFTEST = [
     {"mutation": "BlockedPeers::enforce: `if !self.peers.contains(peer)`", "caught_by": "polarity/BlockedPeers: Ok only when not listed"},
@@ -34,6 +33,8 @@ SELFTEST = [
      "caught_by": "poll/every popped peer yields one CloseConnection"},
     {"mutation": "poll: `self.close_connections.pop_back()` is accepted (order is not part of the property)", "caught_by": "(none, by design)"},
     {"mutation": "unblock_peer additionally clears close_connections", "caught_by": "who/close_connections mutators"},
+    {"mutation": "NEUTRAL: rename Enforce/enforce, state, peers, close_connections; `?` rewritten as match / if let Err (neutral/misc/08.diff); debug_assert! (10.diff)",
+     "caught_by": "(silent, by design: the private trait, method and fields are resolved by role; lm.result_edges accepts `?`, match, if-let and is_err shapes)"},
     {"mutation": "block_peer: waker.take()/wake() removed", "caught_by": "close/block_peer: stored waker consulted after queueing"},
     {"mutation": "poll: `self.waker = Some(..)` removed", "caught_by": "poll/waker stored before Pending"},
 ]
@@ -79,12 +80,30 @@ def norm_edges(body, pred):
 
 def check(ctx):
     prog = ctx.prog
-    # ------------------------------------------------------------------ Enforce impls and polarity
-    imps = prog.impls(AB, r"^libp2p_allow_block_list::Enforce$")
-    ctx.ob("polarity", "Enforce is implemented by exactly AllowedPeers and BlockedPeers", sorted(i["self"] for i in imps) == ["AllowedPeers", "BlockedPeers"],
-           msg=str([i["self"] for i in imps]))
+    # ------------------------------------------------------------------ roles (private names are resolved, never spelled out)
+    # the private enforcement trait = the crate-local trait implemented by the two public list types
+    local = [i for i in prog.impls(AB) if (i.get("trait") or "").startswith("libp2p_allow_block_list::") and i["self"] in ("AllowedPeers", "BlockedPeers")]
+    traits = {i["trait"] for i in local}
+    if len(traits) != 1:
+        raise mir.RuleError("enforcement trait: expected one crate-local trait implemented by AllowedPeers and BlockedPeers, found %s" % sorted(traits))
+    TRAIT = traits.pop()
+    imps = prog.impls(AB, "^" + re.escape(TRAIT) + "$")
+    ctx.ob("polarity", "the enforcement trait is implemented by exactly AllowedPeers and BlockedPeers", sorted(i["self"] for i in imps) == ["AllowedPeers", "BlockedPeers"],
+           msg="%s: %s" % (TRAIT, [i["self"] for i in imps]))
+    meths = {i["self"]: [x for x in i.get("items", []) if prog.find(AB, "^" + re.escape(strip_generics(x)) + "$")] for i in imps}
+    if any(len(v) != 1 for v in meths.values()):
+        raise mir.RuleError("enforcement trait %s: expected exactly one method per impl, found %s" % (TRAIT, meths))
+    METHOD = strip_generics(meths["AllowedPeers"][0]).rsplit("::", 1)[1]
+    ENF = "^" + re.escape(TRAIT + "::" + METHOD) + "$"
+    STATE = lm.field_by_type(prog, AB, r"^libp2p_allow_block_list::Behaviour$", r"^S$")
+    QUEUE = lm.field_by_type(prog, AB, r"^libp2p_allow_block_list::Behaviour$", r"VecDeque<.*PeerId>")
+    WAKER = lm.field_by_type(prog, AB, r"^libp2p_allow_block_list::Behaviour$", r"Option<std::task::Waker>")
+    PEERS = {ty: lm.field_by_type(prog, AB, r"^libp2p_allow_block_list::%s$" % ty, r"HashSet<.*PeerId>") for ty in ("AllowedPeers", "BlockedPeers")}
+    ctx.note("roles: trait=%s method=%s state=%s queue=%s waker=%s peers=%s" % (TRAIT, METHOD, STATE, QUEUE, WAKER, PEERS))
+    # ------------------------------------------------------------------ polarity of the two impls
     for ty, listed_ok in (("AllowedPeers", True), ("BlockedPeers", False)):
-        b = ctx.body(AB, r"<%s as Enforce>::enforce$" % ty)
+        b = ctx.body(AB, "^" + re.escape(strip_generics(meths[ty][0])) + "$")
+        SET, PEER = "self." + PEERS[ty], lm.pname(b, 2)
         where = "%s:%d" % (b.file, b.line)
         res = result_defs(b)
         oks = [s for k, s in res if k == "Ok"]
@@ -92,7 +111,7 @@ def check(ctx):
         ctx.ob("polarity", ty + ": results are Ok or Err", all(k in ("Ok", "Err") for k, _ in res) and oks and errs, where, str([k for k, _ in res]))
 
         def is_contains(c):
-            return c[0] == "call" and strip_generics(c[1]) == "std::collections::HashSet::contains" and render(c[2][0]) == "self.peers" and render(c[2][1]) == "peer"
+            return c[0] == "call" and strip_generics(c[1]) == "std::collections::HashSet::contains" and render(c[2][0]) == SET and render(c[2][1]) == PEER
         listed = norm_edges(b, lambda c, l: is_contains(c) and l == "true")
         unlisted = norm_edges(b, lambda c, l: is_contains(c) and l == "false")
         ctx.ob("polarity", "floor:%s membership test self.peers.contains(peer)" % ty, len(listed) == 1 and len(unlisted) == 1, where,
@@ -111,25 +130,26 @@ def check(ctx):
             ctx.ob("polarity", "%s: %s peer gets Err" % (ty, "unlisted" if listed_ok else "listed"), got == (1, 1), where, "Err results on the denying edge: %s" % (got,))
 
     # ------------------------------------------------------------------ the three hooks
-    for fn, peer_expr, none_ok in (("handle_established_inbound_connection", "peer", False), ("handle_established_outbound_connection", "peer", False),
-                                   ("handle_pending_outbound_connection", "peer@Some.0", True)):
+    for fn, none_ok in (("handle_established_inbound_connection", False), ("handle_established_outbound_connection", False),
+                        ("handle_pending_outbound_connection", True)):
         b = ctx.body(AB, NB + fn + "$")
+        PP = lm.param_by_type(b, r"PeerId")                       # PeerId / Option<PeerId> parameter, whatever its name
+        peer_expr = PP + "@Some.0" if none_ok else PP
         where = "%s:%d" % (b.file, b.line)
         rets = b.return_blocks()
-        calls = b.call_sites(r"^libp2p_allow_block_list::Enforce::enforce$")
+        calls = b.call_sites(ENF)
         ctx.floor("enforce", fn + " enforce call", calls, 1, exact=True)
         res = result_defs(b)
         ctx.ob("enforce", fn + ": results are Ok / Err / `?` residual", all(k in ("Ok", "Err", "residual") for k, _ in res), where, str([k for k, _ in res]))
         oks = [s for k, s in res if k == "Ok"]
         ctx.floor("enforce", fn + " Ok results", oks, 1)
-        none_edges = lib.switch_edges_on(b, r"^discr\(peer\)$", {"None"}) if none_ok else set()
+        none_edges = lib.switch_edges_on(b, r"^discr\(%s\)$" % re.escape(PP), {"None"}) if none_ok else set()
         if none_ok:
             ctx.ob("enforce", "floor:%s peer==None edge" % fn, len(none_edges) == 1, where, str(sorted(none_edges)), nontrivial=False)
         for s in calls:
             e = b.site_expr(s)
-            ctx.ob("enforce", fn + ": enforces the list on the connection's peer", render(e[2][0]) == "self.state" and render(e[2][1]) == peer_expr, s.loc(), render(e)[:160])
-            cont = lib.switch_edges_on_site(b, s, {"Continue", "Ok"}, TRY)
-            brk = lib.switch_edges_on_site(b, s, {"Break", "Err"}, TRY)
+            ctx.ob("enforce", fn + ": enforces the list on the connection's peer", render(e[2][0]) == "self." + STATE and render(e[2][1]) == peer_expr, s.loc(), render(e)[:160])
+            cont, brk = lm.result_edges(b, s)     # `?`, match Ok/Err, if let Err, is_err()
             ctx.ob("enforce", "floor:%s pass/deny edges" % fn, len(cont) == 1 and len(brk) == 1, s.loc(), "%s / %s" % (sorted(cont), sorted(brk)), nontrivial=False)
             for o in oks:
                 ok = bool(cont) and b.must_pass_edges(o.bb, cont | none_edges)
@@ -140,7 +160,7 @@ def check(ctx):
                 got = lib.count_range(b, [t for _, t in brk], rets, lib.bbs(oks))
                 ctx.ob("enforce", fn + ": denial is returned", got == (0, 0), s.loc(), "Ok results on paths from the Err edge: %s" % (got,))
             if none_ok:
-                some = lib.switch_edges_on(b, r"^discr\(peer\)$", {"Some"})
+                some = lib.switch_edges_on(b, r"^discr\(%s\)$" % re.escape(PP), {"Some"})
                 got = lib.count_range(b, [t for _, t in some], rets, [s.bb]) if some else None
                 ctx.ob("enforce", fn + ": known peer is always checked", got == (1, 1), s.loc(), "enforce calls on the Some(peer) edge: %s" % (got,))
             else:
@@ -153,42 +173,45 @@ def check(ctx):
         b = ctx.body(AB, r"^libp2p_allow_block_list::Behaviour::%s$" % fn)
         where = "%s:%d" % (b.file, b.line)
         rets = b.return_blocks()
-        muts = lib.field_mut_calls(b, "peers")
+        PEER = lm.pname(b, 2)
+        PF = PEERS["AllowedPeers" if fn in ("allow_peer", "disallow_peer") else "BlockedPeers"]
+        SETX = "self.%s.%s" % (STATE, PF)
+        muts = lib.field_mut_calls(b, PF)
         names = [strip_generics(b.call_name(s.term)) for s in muts]
         ctx.ob("list", "%s: state.peers.%s(peer)" % (fn, op), names == ["std::collections::HashSet::" + op] and
-               [render(a) for a in b.site_expr(muts[0])[2]] == ["self.state.peers", "peer"], muts[0].loc() if muts else where,
+               bool(muts) and [render(a) for a in b.site_expr(muts[0])[2]] == [SETX, PEER], muts[0].loc() if muts else where,
                "set operations: %s" % [render(b.site_expr(s))[:100] for s in muts])
         got = lib.count_range(b, [0], rets, lib.bbs(muts))
         ctx.ob("list", fn + ": set updated on every path", got == (1, 1), where, "set operations on all paths: %s" % (got,))
-        pushes = [s for s in b.call_sites(r"VecDeque::push_(back|front)$") if render(b.site_expr(s)[2][0]) == "self.close_connections"]
+        pushes = [s for s in b.call_sites(r"VecDeque::push_(back|front)$") if render(b.site_expr(s)[2][0]) == "self." + QUEUE]
         if not closes:
             continue
         ctx.floor("close", fn + " push_back", pushes, 1, exact=True)
         if not muts:
             continue
-        changed = lib.switch_edges_on_site(b, muts[0], {"true"}, r"^std::collections::HashSet::(insert|remove)\(self\.state\.peers, peer\)$")
+        changed = lm.unnot_edges(b, lambda c, r, l: l == "true" and bool(lib.value_leaves(b, c)) and all(x[0] == "call" and x[3] == muts[0].bb for x in lib.value_leaves(b, c)))
         ctx.ob("close", "floor:%s changed edge" % fn, len(changed) == 1, where, str(sorted(changed)), nontrivial=False)
         verb = "newly listed" if fn == "block_peer" else "newly unlisted"
         for _, t in sorted(changed):
             got = lib.count_range(b, [t], rets, lib.bbs(pushes))
             ctx.ob("close", "%s: %s peer queued for closing once" % (fn, verb), got == (1, 1), where, "close_connections.push_back on the changed edge: %s" % (got,))
-            takes = [s for s in b.call_sites(r"Option::take$") if render(b.site_expr(s)[2][0]) == "self.waker"]
+            takes = [s for s in b.call_sites(r"Option::take$") if render(b.site_expr(s)[2][0]) == "self." + WAKER]
             wakes = b.call_sites(r"task::Waker::wake(_by_ref)?$")
             got = lib.count_range(b, [t], rets, lib.bbs(takes))
             ctx.ob("close", fn + ": stored waker consulted after queueing", got == (1, 1), where, "self.waker.take() on the changed edge: %s" % (got,))
             for tk in takes:
-                some = lib.switch_edges_on_site(b, tk, {"Some"}, r"^discr\(std::option::Option::take\(self\.waker\)\)$")
+                some = lib.switch_edges_on_site(b, tk, {"Some"}, r"^discr\(std::option::Option::take\(")
                 got = lib.count_range(b, [x for _, x in some], rets, lib.bbs(wakes)) if some else None
                 ctx.ob("close", fn + ": stored waker woken", got == (1, 1), tk.loc(), "wake() on the Some(waker) edge: %s" % (got,))
         for s in pushes:
             e = b.site_expr(s)
-            ctx.ob("close", fn + ": the queued peer is the changed peer", render(e[2][1]) == "peer", s.loc(), render(e)[:140])
+            ctx.ob("close", fn + ": the queued peer is the changed peer", render(e[2][1]) == PEER, s.loc(), render(e)[:140])
 
     # ------------------------------------------------------------------ poll
     p = ctx.body(AB, NB + "poll$")
     where = "%s:%d" % (p.file, p.line)
     rets = p.return_blocks()
-    pops = [s for s in p.call_sites(r"VecDeque::pop_(front|back)$") if render(p.site_expr(s)[2][0]) == "self.close_connections"]
+    pops = [s for s in p.call_sites(r"VecDeque::pop_(front|back)$") if render(p.site_expr(s)[2][0]) == "self." + QUEUE]
     ctx.floor("poll", "close_connections pop", pops, 1, exact=True)
     closes, pend, other = [], [], []
     for d in p.defs.get(0, []):
@@ -203,8 +226,8 @@ def check(ctx):
             other.append(r[:80])
     ctx.ob("poll", "results are Ready(CloseConnection) or Pending", not other and closes and pend, where, "other results: %s" % other)
     for s in pops:
-        some = lib.switch_edges_on_site(p, s, {"Some"}, r"^discr\(std::collections::VecDeque::pop_(front|back)\(self\.close_connections\)\)$")
-        none = lib.switch_edges_on_site(p, s, {"None"}, r"^discr\(std::collections::VecDeque::pop_(front|back)\(self\.close_connections\)\)$")
+        some = lib.switch_edges_on_site(p, s, {"Some"}, r"^discr\(std::collections::VecDeque::pop_(front|back)\(self\.%s\)\)$" % re.escape(QUEUE))
+        none = lib.switch_edges_on_site(p, s, {"None"}, r"^discr\(std::collections::VecDeque::pop_(front|back)\(self\.%s\)\)$" % re.escape(QUEUE))
         ctx.ob("poll", "floor:pop Some/None edges", len(some) == 1 and len(none) == 1, s.loc(), "%s / %s" % (sorted(some), sorted(none)), nontrivial=False)
         if some:
             got = lib.count_range(p, [t for _, t in some], rets, lib.bbs([c for c, _ in closes]))
@@ -219,15 +242,15 @@ def check(ctx):
         f = dict(agg[0][4]) if agg else {}
         pid = render(f.get("peer_id", ("unknown", "?")))
         conn = render(f.get("connection", ("unknown", "?")))
-        ctx.ob("poll", "CloseConnection names the popped peer", re.match(r"^std::collections::VecDeque::pop_(front|back)\(self\.close_connections\)@Some\.0$", pid) is not None, site.loc(), "peer_id: " + pid)
+        ctx.ob("poll", "CloseConnection names the popped peer", re.match(r"^std::collections::VecDeque::pop_(front|back)\(self\.%s\)@Some\.0$" % re.escape(QUEUE), pid) is not None, site.loc(), "peer_id: " + pid)
         ctx.ob("poll", "CloseConnection closes all connections of the peer", conn == "libp2p_swarm::CloseConnection::All{}", site.loc(), "connection: " + conn)
-    wsites = p.field_write_sites("waker")
+    wsites = p.field_write_sites(WAKER)
     for ps in pend:
         ok = bool(wsites) and ps.bb not in p.reachable([0], blocked_nodes=lib.bbs(wsites))
         ctx.ob("poll", "waker stored before Pending", ok, ps.loc(), "self.waker = Some(cx.waker().clone()) on every path to Poll::Pending")
     for s in wsites:
         r = render(p.site_expr(s))
-        ctx.ob("poll", "stored waker is the task's waker", r.startswith("std::option::Option::Some{0: ") and "std::task::Context::waker(cx)" in r, s.loc(), r[:160])
+        ctx.ob("poll", "stored waker is the task's waker", r.startswith("std::option::Option::Some{0: ") and "std::task::Context::waker(%s)" % lm.pname(p, 2) in r, s.loc(), r[:160])
 
     # ------------------------------------------------------------------ who may mutate
     ALLOWED_PEERS = {("libp2p_allow_block_list::Behaviour::allow_peer", "insert"), ("libp2p_allow_block_list::Behaviour::disallow_peer", "remove"),
@@ -236,15 +259,15 @@ def check(ctx):
                  ("libp2p_allow_block_list::<Behaviour as libp2p_swarm::NetworkBehaviour>::poll", "pop")}
     fp, fq = set(), set()
     for b in prog.bodies(AB):
-        for s in lib.field_mut_calls(b, "peers"):
+        for s in [x for f in set(PEERS.values()) for x in lib.field_mut_calls(b, f)]:
             fp.add((b.npath, strip_generics(b.call_name(s.term)).split("::")[-1]))
-        for s in lib.field_mut_calls(b, "close_connections"):
+        for s in lib.field_mut_calls(b, QUEUE):
             fq.add((b.npath, re.sub(r"^(push|pop)_(back|front)$", r"\1", strip_generics(b.call_name(s.term)).split("::")[-1])))
         if "Default" in b.npath or "default" in b.npath.split("::")[-1]:
             continue
-        for f in ("peers", "close_connections", "state"):
+        for f in sorted(set(PEERS.values()) | {QUEUE, STATE}):
             for s in b.field_write_sites(f, r"libp2p_allow_block_list::"):
-                (fp if f != "close_connections" else fq).add((b.npath, "assign " + f))
+                (fp if f != QUEUE else fq).add((b.npath, "assign " + f))
     ctx.ob("who", "state.peers mutators", fp == ALLOWED_PEERS, msg=str(sorted(fp ^ ALLOWED_PEERS)) if fp != ALLOWED_PEERS else "exactly the four list methods")
     ctx.ob("who", "close_connections mutators", fq == ALLOWED_Q, msg=str(sorted(fq ^ ALLOWED_Q)) if fq != ALLOWED_Q else "push_back in block_peer/disallow_peer, pop_front in poll")
     # accessors hand out shared references only
